@@ -81,6 +81,18 @@ pub const FAIL_KINDS: &[(&str, &str)] = &[
     ("include-missing", "include \"/nonexistent/zz-verif.xeh\""),
     ("require-missing", "require \"/nonexistent/zz-verif.xeh\""),
     ("include-not-string", "include 5"),
+    // virtual files (simulated file system, hook H2): the build dies inside an included file, or
+    // after a file has been taken in completely
+    ("include-bad-file", "include \"bad1.xeh\""),
+    ("require-bad-file", "require \"bad1.xeh\""),
+    ("include-open-structure", "include \"bad2.xeh\""),
+    ("include-meta-fail", "include \"badmeta.xeh\""),
+    ("include-nonutf8", "include \"nonutf8.xeh\""),
+    ("include-eio", "require \"err.xeh\""),
+    ("include-deep-bad", "include \"deep.xeh\""),
+    ("require-then-fail", "require \"lib1.xeh\" zzunknownword"),
+    ("require-nested-then-fail", "require \"lib2.xeh\" l2w drop 1 0 #( 1 0 / #)"),
+    ("include-then-fail", "include \"lib1.xeh\" l1w drop ]"),
     ("see-unknown", "see zzunknownword"),
     ("defined-eof", "defined"),
     ("late-eof", "late"),
@@ -130,9 +142,29 @@ pub struct Case {
     pub style_r: Style,
     pub style_p: Style,
     pub probes: Vec<String>,
+    /// the follow-up probes run under a heap limit of (the control's heap length + this), on both
+    /// parties: heap cells a rejected source left behind eat into it
+    pub probe_heap_slack: Option<usize>,
 }
 
 pub struct Reject;
+
+/// the simulated file system every party of a case sees (hook H2); contents never change
+pub fn sim_files() -> xeh::file::verif_env::Env {
+    let mut env = xeh::file::verif_env::Env::default();
+    let mut f = |name: &str, text: &[u8]| {
+        env.files.insert(name.to_string(), Ok(text.to_vec()));
+    };
+    f("lib1.xeh", b": l1w 11 ; 12 var l1v");
+    f("lib2.xeh", b"require \"lib1.xeh\" : l2w l1w 1 + ;");
+    f("bad1.xeh", b": b1w 21 ; 900601 println 22 zzunknownword 900602 println");
+    f("bad2.xeh", b": b2w 1 if 2");
+    f("badmeta.xeh", b"31 var b3v #( 1 0 / #) 900603 println");
+    f("deep.xeh", b": d1w 41 ; include \"bad1.xeh\" 900604 println");
+    f("nonutf8.xeh", &[0x31, 0x20, 0xff, 0xfe, 0x20, 0x32]);
+    env.files.insert("err.xeh".to_string(), Err("simulated: input/output error".to_string()));
+    env
+}
 
 const PROBE_LIMIT: usize = 3000;
 
@@ -241,6 +273,20 @@ fn one(case: &Case, r: &Rejected, st: &mut Stats) -> Result<bool, Violation> {
 }
 
 fn one0(case: &Case, r: &Rejected, st: &mut Stats) -> Result<bool, Violation> {
+    xeh::file::verif_env::install(sim_files());
+    let res = one1(case, r, st);
+    if let Some(env) = xeh::file::verif_env::uninstall() {
+        if env.file_failures > 0 {
+            st.add("fault.virtual_file_error", env.file_failures as u64);
+        }
+        if env.file_reads > env.file_failures {
+            st.add("probe.virtual_file_read", (env.file_reads - env.file_failures) as u64);
+        }
+    }
+    res
+}
+
+fn one1(case: &Case, r: &Rejected, st: &mut Stats) -> Result<bool, Violation> {
     let text = r.text();
     let mut a = prepare(case);
     let mut b = prepare(case);
@@ -304,6 +350,8 @@ fn one0(case: &Case, r: &Rejected, st: &mut Stats) -> Result<bool, Violation> {
     st.event(&skeleton.join(" "), if case.style_r == Style::Eval { 0 } else { 1 });
     arm(&mut a);
     let res = submit(&mut a, case.style_r, &text);
+    // the budget really ran out (as opposed to an error that merely says so)
+    let budget_spent = a.verif_dump().insn_limit.map(|l| a.verif_insn_meter() >= l).unwrap_or(false);
     disarm(&mut a);
     st.log(&render_result(&res));
     if res.is_ok() {
@@ -358,7 +406,7 @@ fn one0(case: &Case, r: &Rejected, st: &mut Stats) -> Result<bool, Violation> {
     }
     if !build_time {
         if let Err(Xerr::ErrorMsg(m)) = &res {
-            if m.starts_with("insn limit reached") {
+            if m.starts_with("insn limit reached") && budget_spent {
                 // only paused by the watchdog: resuming it later is not a re-execution
                 st.count("probe.paused_by_watchdog");
                 return Ok(false);
@@ -405,6 +453,12 @@ fn one0(case: &Case, r: &Rejected, st: &mut Stats) -> Result<bool, Violation> {
         return Ok(false);
     }
     // (b) every later source behaves as on the control
+    if let Some(k) = case.probe_heap_slack {
+        let lim = b.verif_heap_len() + k;
+        a.set_heap_limit(Some(lim)).unwrap();
+        b.set_heap_limit(Some(lim)).unwrap();
+        st.count("probe.follow_up_under_heap_limit");
+    }
     for (i, p) in case.probes.iter().enumerate() {
         a.set_insn_limit(Some(PROBE_LIMIT)).unwrap();
         b.set_insn_limit(Some(PROBE_LIMIT)).unwrap();
@@ -495,9 +549,15 @@ fn standard_probes(env: &Env) -> Vec<String> {
         "[ 5 6 ] let [ qa qb ] qa qb".into(),
         ": qw2 local x x x * ; 7 qw2".into(),
         ".s".into(),
+        "require \"lib1.xeh\" l1w l1v".into(),
+        "require \"lib2.xeh\" l2w".into(),
+        "include \"lib1.xeh\" l1w".into(),
     ];
     for var in env.vars.iter().take(3) {
         v.push(var.name.clone());
+    }
+    for c in env.consts.iter().take(2) {
+        v.push(c.clone());
     }
     for w in env.words.iter().filter(|w| !w.pending).take(2) {
         let mut s = String::new();
@@ -510,6 +570,164 @@ fn standard_probes(env: &Env) -> Vec<String> {
     v
 }
 
+fn generate0(rng: &mut Rng, tier: Tier) -> Case {
+    let mut f = Features::swarm(rng);
+    f.errors = 0;
+    f.redefine = false;
+    let input_len = *rng.pick(&[0usize, 64]);
+    let input = random_bytes(rng, input_len);
+    let recording = rng.chance(1, 4);
+    let mut history = Vec::new();
+    let mut env = Env::default();
+    let mut stack: Vec<Ty> = Vec::new();
+    let mut twin = boot(&BootCfg { recording: false, intercept_emit: true, input: input.clone(), d2: false });
+    if rng.chance(1, 6) {
+        // a file already taken in by the accepted history
+        let h = rng.pick(&["require \"lib1.xeh\"", "require \"lib2.xeh\"", "include \"lib1.xeh\""]).to_string();
+        let _ = twin.eval(&h);
+        history.push(h);
+    }
+    let late_pair = rng.chance(1, 40);
+    if late_pair {
+        let h = "late hL1 : hL2 hL1 ;".to_string();
+        let _ = twin.eval(&h);
+        history.push(h);
+    }
+    for _ in 0..rng.below(4) {
+        let n = 3 + rng.below(20);
+        let mut g = Gen::new(rng, f.clone(), env.clone(), "h");
+        let (src, st2) = g.source(n, &stack);
+        let env2 = g.env.clone();
+        let snapshot = twin.clone();
+        twin.set_insn_limit(Some(20_000)).unwrap();
+        if twin.eval(&src).is_ok() {
+            history.push(src);
+            env = env2;
+            stack = st2;
+        } else {
+            twin = snapshot;
+            env.counter = env2.counter;
+        }
+    }
+    // the base of the rejected source: structure-heavy, in its own name space, with sentinels
+    let mut fr = f.clone();
+    let runtime_mode = rng.chance(1, 4);
+    fr.errors = if runtime_mode { 120 } else if rng.chance(1, 5) { 60 } else { 0 };
+    let n = 4 + rng.below(40);
+    let mut g = Gen::new(rng, fr, env.clone(), "r");
+    let (base0, _) = g.source(n, &stack);
+    let mut toks = split_tokens(&base0);
+    // sentinels: visible effects if any part of the source is ever executed
+    let ns = rng.below(4);
+    for k in 0..ns {
+        let at = rng.below(toks.len() + 1);
+        let sentinel = match rng.below(3) {
+            0 => vec![format!("{}", 900100 + k), "println".to_string()],
+            1 => vec![format!("{}", 900200 + k)],
+            _ => match env.vars.first() {
+                Some(v) if v.ty == Ty::Int => vec![format!("{}", 900300 + k), "!".to_string(), v.name.clone()],
+                _ => vec![format!("{}", 900400 + k), "print".to_string()],
+            },
+        };
+        // only between statements would be ideal; anywhere is fine for a source that must never run
+        for (j, t) in sentinel.into_iter().enumerate() {
+            toks.insert((at + j).min(toks.len()), t);
+        }
+    }
+    let base = toks.join(" ");
+    let style_r = *rng.pick(&[Style::Eval, Style::CompileRun]);
+    let style_p = *rng.pick(&[Style::Eval, Style::CompileRun]);
+    // probes: the standard set plus generated ones in their own name space
+    let mut probes = standard_probes(&env);
+    let mut fp = f.clone();
+    fp.errors = 10;
+    for _ in 0..rng.below(3) {
+        let n = 3 + rng.below(20);
+        let mut g = Gen::new(rng, fp.clone(), env.clone(), "q");
+        let (src, _) = g.source(n, &[]);
+        env.counter = g.env.counter;
+        probes.push(src);
+    }
+    // a random selection, in random order, so that runs differ in what follows the rejection
+    let mut chosen = Vec::new();
+    let k = 2 + rng.below(6);
+    for _ in 0..k {
+        if probes.is_empty() {
+            break;
+        }
+        let i = rng.below(probes.len());
+        chosen.push(probes.remove(i));
+    }
+    let ntok = toks.len();
+    let rejected = if runtime_mode {
+        // the last clause of the statement: a whole, well-formed line that fails when it runs,
+        // under the ordinary budget, under a budget that ends on the failing instruction, or
+        // because a stack / heap limit trips in the middle of it
+        let limit = match rng.below(8) {
+            0 | 1 => None,
+            2 | 3 => Some(("insn-at-failure".to_string(), 0)),
+            4 => Some(("insn-at-failure".to_string(), 1)),
+            5 | 6 => Some(("stack".to_string(), rng.below(6))),
+            _ => Some(("heap".to_string(), rng.below(3))),
+        };
+        Rejected { prefix: base.clone(), kind: "fails-at-run".to_string(), fail: String::new(), trailing: "900500 println".to_string(), limit }
+    } else {
+        let pos = if rng.chance(1, 8) { ntok } else { rng.below(ntok + 1) };
+        let (prefix, trailing) = base_cut(&base, pos);
+        let (kind, fail) = *rng.pick(FAIL_KINDS);
+        // a rejected source that re-defines a name of the accepted history before it dies:
+        // afterwards the name must mean what it meant before (the probe reads it)
+        let mut redefinition: Option<(String, String, String)> = None;
+        if rng.chance(1, 8) {
+            let mut c: Vec<(String, String, String)> = Vec::new();
+            for k in env.consts.iter() {
+                c.push(("redefine-const-then-fail".into(), format!("#( 424299 const {} #) zzunknownword", k), k.clone()));
+                c.push(("redefine-const-in-failing-meta".into(), format!("#( 424296 const {} 1 0 / #)", k), k.clone()));
+            }
+            for w in env.words.iter().filter(|w| !w.pending) {
+                let mut call = String::new();
+                for _ in 0..w.arity {
+                    call.push_str("1 ");
+                }
+                call.push_str(&w.name);
+                c.push(("redefine-word-then-fail".into(), format!(": {} 424298 ; zzunknownword", w.name), call));
+            }
+            for v in env.vars.iter() {
+                c.push(("redefine-var-then-fail".into(), format!("424297 var {} zzunknownword", v.name), v.name.clone()));
+            }
+            if !c.is_empty() {
+                redefinition = Some(rng.pick(&c).clone());
+            }
+        }
+        if late_pair {
+            // the history declared a late word and a user of it; the rejected source defines the
+            // late word and calls the user at build time (which binds the call site), then dies
+            redefinition = Some((
+                "late-bound-then-fail".into(),
+                ": zzpad 1 2 3 ; : hL1 424295 ; #( hL2 drop #) zzunknownword".into(),
+                "hL2".into(),
+            ));
+        }
+        if let Some((_, _, probe)) = &redefinition {
+            chosen.insert(0, probe.clone());
+        }
+        let (kind, fail): (String, String) = match &redefinition {
+            Some((k, f, _)) => (k.clone(), f.clone()),
+            None => (kind.to_string(), fail.to_string()),
+        };
+        let (kind, fail) = (kind.as_str(), fail.as_str());
+        let trailing = match rng.below(4) {
+            0 => String::new(),
+            1 => format!("{} 900500 println", trailing),
+            _ => trailing,
+        };
+        Rejected { prefix, kind: kind.to_string(), fail: fail.to_string(), trailing, limit: limit_for(kind) }
+    };
+    let enumerate = tier == Tier::Thorough && !runtime_mode && rng.chance(1, 2);
+    let probe_heap_slack = if rng.chance(1, 5) { Some(rng.below(3)) } else { None };
+    Case { input, recording, history, rejected, base, enumerate, style_r, style_p, probes: chosen, probe_heap_slack }
+}
+
 impl Engine for Reject {
     type Case = Case;
     const NAME: &'static str = "reject";
@@ -519,108 +737,13 @@ impl Engine for Reject {
     const STUB: &'static str = "process stdout (captured); include/require only of a path that does not exist";
 
     fn generate(rng: &mut Rng, tier: Tier) -> Case {
-        let mut f = Features::swarm(rng);
-        f.errors = 0;
-        f.redefine = false;
-        let input_len = *rng.pick(&[0usize, 64]);
-        let input = random_bytes(rng, input_len);
-        let recording = rng.chance(1, 4);
-        let mut history = Vec::new();
-        let mut env = Env::default();
-        let mut stack: Vec<Ty> = Vec::new();
-        let mut twin = boot(&BootCfg { recording: false, intercept_emit: true, input: input.clone(), d2: false });
-        for _ in 0..rng.below(4) {
-            let n = 3 + rng.below(20);
-            let mut g = Gen::new(rng, f.clone(), env.clone(), "h");
-            let (src, st2) = g.source(n, &stack);
-            let env2 = g.env.clone();
-            let snapshot = twin.clone();
-            twin.set_insn_limit(Some(20_000)).unwrap();
-            if twin.eval(&src).is_ok() {
-                history.push(src);
-                env = env2;
-                stack = st2;
-            } else {
-                twin = snapshot;
-                env.counter = env2.counter;
-            }
-        }
-        // the base of the rejected source: structure-heavy, in its own name space, with sentinels
-        let mut fr = f.clone();
-        let runtime_mode = rng.chance(1, 4);
-        fr.errors = if runtime_mode { 120 } else if rng.chance(1, 5) { 60 } else { 0 };
-        let n = 4 + rng.below(40);
-        let mut g = Gen::new(rng, fr, env.clone(), "r");
-        let (base0, _) = g.source(n, &stack);
-        let mut toks = split_tokens(&base0);
-        // sentinels: visible effects if any part of the source is ever executed
-        let ns = rng.below(4);
-        for k in 0..ns {
-            let at = rng.below(toks.len() + 1);
-            let sentinel = match rng.below(3) {
-                0 => vec![format!("{}", 900100 + k), "println".to_string()],
-                1 => vec![format!("{}", 900200 + k)],
-                _ => match env.vars.first() {
-                    Some(v) if v.ty == Ty::Int => vec![format!("{}", 900300 + k), "!".to_string(), v.name.clone()],
-                    _ => vec![format!("{}", 900400 + k), "print".to_string()],
-                },
-            };
-            // only between statements would be ideal; anywhere is fine for a source that must never run
-            for (j, t) in sentinel.into_iter().enumerate() {
-                toks.insert((at + j).min(toks.len()), t);
-            }
-        }
-        let base = toks.join(" ");
-        let style_r = *rng.pick(&[Style::Eval, Style::CompileRun]);
-        let style_p = *rng.pick(&[Style::Eval, Style::CompileRun]);
-        // probes: the standard set plus generated ones in their own name space
-        let mut probes = standard_probes(&env);
-        let mut fp = f.clone();
-        fp.errors = 10;
-        for _ in 0..rng.below(3) {
-            let n = 3 + rng.below(20);
-            let mut g = Gen::new(rng, fp.clone(), env.clone(), "q");
-            let (src, _) = g.source(n, &[]);
-            env.counter = g.env.counter;
-            probes.push(src);
-        }
-        // a random selection, in random order, so that runs differ in what follows the rejection
-        let mut chosen = Vec::new();
-        let k = 2 + rng.below(6);
-        for _ in 0..k {
-            if probes.is_empty() {
-                break;
-            }
-            let i = rng.below(probes.len());
-            chosen.push(probes.remove(i));
-        }
-        let ntok = toks.len();
-        let rejected = if runtime_mode {
-            // the last clause of the statement: a whole, well-formed line that fails when it runs,
-            // under the ordinary budget, under a budget that ends on the failing instruction, or
-            // because a stack / heap limit trips in the middle of it
-            let limit = match rng.below(8) {
-                0 | 1 => None,
-                2 | 3 => Some(("insn-at-failure".to_string(), 0)),
-                4 => Some(("insn-at-failure".to_string(), 1)),
-                5 | 6 => Some(("stack".to_string(), rng.below(6))),
-                _ => Some(("heap".to_string(), rng.below(3))),
-            };
-            Rejected { prefix: base.clone(), kind: "fails-at-run".to_string(), fail: String::new(), trailing: "900500 println".to_string(), limit }
-        } else {
-            let pos = if rng.chance(1, 8) { ntok } else { rng.below(ntok + 1) };
-            let (prefix, trailing) = base_cut(&base, pos);
-            let (kind, fail) = *rng.pick(FAIL_KINDS);
-            let trailing = match rng.below(4) {
-                0 => String::new(),
-                1 => format!("{} 900500 println", trailing),
-                _ => trailing,
-            };
-            Rejected { prefix, kind: kind.to_string(), fail: fail.to_string(), trailing, limit: limit_for(kind) }
-        };
-        let enumerate = tier == Tier::Thorough && !runtime_mode && rng.chance(1, 2);
-        Case { input, recording, history, rejected, base, enumerate, style_r, style_p, probes: chosen }
+        // the dry twin that keeps the history "accepted" sees the same simulated files
+        xeh::file::verif_env::install(sim_files());
+        let c = generate0(rng, tier);
+        xeh::file::verif_env::uninstall();
+        c
     }
+
 
     fn execute(case: &Case, st: &mut Stats) -> Outcome {
         if case.enumerate {
@@ -747,7 +870,8 @@ impl Engine for Reject {
             "enumerate" => c.enumerate,
             "style_r" => c.style_r.name(),
             "style_p" => c.style_p.name(),
-            "probes" => strs(&c.probes)
+            "probes" => strs(&c.probes),
+            "probe_heap_slack" => c.probe_heap_slack
         }
     }
 
@@ -774,6 +898,7 @@ impl Engine for Reject {
             style_r: style(&j.f_str("style_r")?)?,
             style_p: style(&j.f_str("style_p")?)?,
             probes: json_strs(j, "probes")?,
+            probe_heap_slack: j.get("probe_heap_slack").and_then(|x| x.int()).map(|x| x as usize),
         })
     }
 }
